@@ -399,6 +399,10 @@ static void random_call(void)
 	int r = (int)vrng_below(1000);
 	int t;
 
+	/* keep a playing context alive longer: most of the calls that leave PLAYING are re-drawn */
+	if (cd->state == XMP_STATE_PLAYING && (r < 10 || (r >= 45 && r < 110) || (r >= 310 && r < 325)) && vrng_chance(70))
+		r = 110 + (int)vrng_below(890);
+
 	if (r < 10) call("recreate", 0, 0, 0, 0);
 	else if (r < 15) call("version", 0, 0, 0, 0);
 	else if (r < 20) call("get_format_list", 0, 0, 0, 0);
@@ -484,7 +488,7 @@ static void gen_sequence(int maxlen)
 	int style = (int)vrng_below(10);
 
 	/* prefixes that reach the deeper states quickly */
-	if (style >= 3 && n > 4) {
+	if (style >= 2 && n > 4) {
 		if (style >= 7) {
 			call("start_smix", vrng_range(0, 4), vrng_range(0, 3), 0, 0);
 			if (vrng_chance(70))
@@ -493,7 +497,7 @@ static void gen_sequence(int maxlen)
 		}
 		call("load_module", (int)vrng_below(4), 1, (int)vrng_below((uint32_t)nmod), 0);
 		n--;
-		if (style >= 5) {
+		if (style >= 3) {
 			call("start_player", vrng_range(8000, 48000), (int)vrng_below(8), 0, 0);
 			n--;
 		}
